@@ -48,7 +48,7 @@ EVAL_PROGRAMS = {
     # two parameters of one name: the use denotes the one that evaluation binds last - resolution and evaluation agree
     "two-parameters-of-the-same-name": (
         {"main.oal": "let f x x = { 'v x };\nres /a on get -> <f \"not a schema\" str>;\n"},
-        [("paths./a.get.responses.default.content.application/json.schema.properties.v.type", "string")], 0),
+        [("paths./a.get.responses.default.content.application/json.schema.properties.v.type", "string")], None),   # or rejected as a duplicate binder
     "declaration-order-is-irrelevant": (
         {"main.oal": "res / on get -> <a>;\nlet a = { 'b b };\nlet b = int;\n"},
         [("paths./.get.responses.default.content.application/json.schema.properties.b.type", "integer")], 0),
@@ -119,6 +119,8 @@ def run_eval_programs(rdir):
         if crashed(r):
             probs.append("%s: oal-cli dies (exit %s)" % (name, r["rc"]))
             continue
+        if want_rc is None and r["rc"] in (0, 1):
+            want_rc = r["rc"]          # either verdict is within the statement; the facts apply to an accepted program
         if r["rc"] != want_rc:
             probs.append("%s: exit %s, the statement demands %s" % (name, r["rc"], "acceptance" if want_rc == 0 else "an error"))
             continue
@@ -609,7 +611,7 @@ def check():
     # ---------------------------------------------------------------- replay on the real binaries
     import lspcorpus
     rdir = new_replay_dir("C08", "binding")
-    wanted = {k: v for k, v in lspcorpus.PROGRAMS.items() if k in ("nested-same-name-binders", "shadowing-and-reference", "unqualified-import", "two-modules", "modules-in-sub-directories")}
+    wanted = {k: v for k, v in lspcorpus.PROGRAMS.items() if k in ("nested-same-name-binders", "shadowing-and-reference", "unqualified-import", "two-modules", "modules-in-sub-directories", "two-parameters-of-one-name")}
     saved = lspcorpus.PROGRAMS
     lspcorpus.PROGRAMS = wanted
     try:
